@@ -539,6 +539,18 @@ func (w *World) LatestDel(m, s int) ([3]int, bool) {
 	return [3]int{m, s, k}, true
 }
 
+// DeliveryPublishedAt returns the stored published_at of a delivery row at
+// full resolution (real-clock frame).
+func (w *World) DeliveryPublishedAt(id uuid.UUID) (time.Time, bool) {
+	var t sql.NullTime
+	err := w.DB.QueryRowContext(sqlwrap.WithActor(context.Background(), "harness"),
+		"SELECT published_at FROM deliveries WHERE id = ?", id).Scan(&t)
+	if err != nil || !t.Valid {
+		return time.Time{}, false
+	}
+	return t.Time, true
+}
+
 // Project reads the five tables and returns the abstract state.
 func (w *World) Project(ctx context.Context) (*State, error) {
 	ctx = sqlwrap.WithActor(ctx, "harness")
